@@ -22,7 +22,21 @@ from seqref import FD, OOD
 
 ID = 'C13'
 LEAN_MODULES = ['Yaql.Props.C13']
-REQUIRED_THEOREMS = []          # filled below
+REQUIRED_THEOREMS = ['Yaql.Props.C13.' + n for n in (
+    'orderBy_perm orderBy_sorted orderBy_stable orderBy_stable_pair stable_sort_unique thenBy_lex cmpFields_append '
+    'descending_reverse_of_keys orderBy_sorted_int groupBy_partition groupBy_keys_distinct groupBy_group_content '
+    'where_where select_select where_select_commute take_skip_append len_take reverse_reverse '
+    'distinct_nodup_sublist distinct_idempotent distinct_complete zip_length zipLongest_length zip_rows_in_range '
+    'slice_concat slice_sizes splitAt_append splitWhere_no_delims splitWhere_flatten sliceWhere_concat sliceWhere_uniform '
+    'indexOf_first lastIndexOf_last indexWhere_first insert_delete_inverse iterInsert_delete_inverse replace_length '
+    'delete_length accumulate_last_eq_aggregate sum_append any_all_demorgan first_eq_take1 '
+    'mem_union mem_intersect mem_difference mem_symmetricDifference union_comm union_assoc intersect_comm '
+    'intersect_assoc union_absorb intersect_absorb difference_is_complement symmetricDifference_eq SetInv_ops '
+    'get_set combineDicts_right_biased combineDicts_assoc get_delete delete_then_containsKey mergeWith_disjoint '
+    'memorize_same_elements unpack_binds_positional unpack_binds_named unpack_first '
+    'mapM_pure filterM_pure flatMapM_pure takeWhileM_pure dropWhileM_pure distinctM_pure findM_pure reduceM_pure '
+    'scanM2_pure groupsM_pure sortRun_pure run_where run_select run_take run_skip run_reverse run_distinct run_orderBy_iter'
+).split()]
 TRUSTED = ["CPython's sorted() is a stable sort (licensed by stable_sort_unique); Python ==/hash on the generated values "
            "is what Value.pyEq / canon model; iteration order of an input set is read from CPython",
            'harness/seqref.py (plain-Python transcription of the documented meaning, second opinion for every case)']
@@ -476,7 +490,21 @@ def run(env, res):
     return res
 
 
-LEVEL_TEXT = ''
-LEVEL_NOTE = ''
+LEVEL_TEXT = ('Lean 4 theorems, for collections of EVERY size, about a list-level reference model with one definition per '
+              'function of queries.py / collections.py (+ unpack, memorize): ordering is a permutation, sorted and stable, '
+              'and ANY stable sorted permutation equals it (stable_sort_unique - what licenses comparing with CPython\'s '
+              'sorted); thenBy is the lexicographic comparator; groupBy partitions the input keeping encounter order with '
+              'keys in first-occurrence order; the algebraic laws between where/select/take/skip/distinct/zip/slice/'
+              'splitAt/splitWhere/sliceWhere/indexOf/insert/delete/replace/accumulate/aggregate/any/all/first; set algebra '
+              'and dict laws under Python equality; memorize and unpack (lists and one-shot iterators).  The model is tied '
+              'to the code by running, per function, generated pipelines of <= 4 stages on the real engine, on the compiled '
+              'model and on an independent plain-Python transcription of the documented meaning, and comparing finalised '
+              'results / exception classes three ways.')
+LEVEL_NOTE = ('trusted: Lean kernel; the hand-written model Yaql/Model/Seq.lean + SeqRun.lean (lambdas restricted to the closed '
+              'family Lam/Lam2; Python ==/hash modelled by a canonical form; lazy sequences as "items then optional '
+              'exception"); harness/seqref.py; CPython sorted() being a stable sort. Doc-silent spots are modelled as '
+              'implemented and listed in notes/C13.md. Out-of-domain (skipped, counted): results depending on the iteration '
+              'order of a set built during evaluation, nested lazy projections, sets as sort keys; for sorts that must raise, '
+              'only "raises" is compared when the first exception depends on the sort algorithm.')
 TECHNIQUE = 'Lean 4 proof (list induction, core mergeSort lemmas) + three-way differential run of generated pipelines'
 DESIGN_REF = 'DESIGN.md section 5, C13'
